@@ -188,6 +188,70 @@ let handle = function
                    outcome o (fun l -> "[" ^ String.concat "," (List.map (function None -> "none" | Some t -> render_tuple t) l) ^ "]")
                  | _ -> failwith "bad walk kind") in
              s ^ " next=" ^ hx !it.next_oid ^ " mr=" ^ sz !it.max_repetitions) pdus))
+  | "pywalk" :: kind :: oid :: mr :: fuel :: pdus ->
+    (* the whole Python-level walk (Model.Walk) against the agent that answers request n with the n-th PDU (the last
+       one for every later request): kind = next | bulk:<requested max_rep or -> | fetch:<v1|v2c|v3>:<allow_bulk 0|1> *)
+    let ps = List.map (fun ph -> match pdu_decode (bytes_of_hex ph) with Ok p -> p | _ -> failwith "undecodable pdu") pdus in
+    let agent n _ =
+      let i = int_of_nat n in
+      let len = List.length ps in
+      List.nth ps (if i < len then i else len - 1) in
+    let f = nat_of_int (int_of_string fuel) in
+    let dflt = z_of_string mr in
+    let w = (match String.split_on_char ':' kind with
+        | ["next"] -> getnext_walk f agent (bytes_of_hex oid)
+        | ["bulk"; req] ->
+          getbulk_walk f agent (bytes_of_hex oid) (effective_max_rep (if req = "-" then None else Some (z_of_string req)) dflt)
+        | ["fetch"; v; ab] ->
+          fetch_walk f agent (match v with "v1" -> V1 | "v2c" -> V2c | _ -> V3) (ab = "1") dflt (bytes_of_hex oid)
+        | _ -> failwith "bad pywalk kind") in
+    (match w with
+     | Raise e -> "NEW-EXC " ^ exc_name e
+     | Crash -> "PANIC"
+     | Return w ->
+       "OK items=" ^ (match w.yielded with [] -> "-" | l -> String.concat ";" (List.map (fun i -> render_tuple (i.it_key, i.it_value)) l))
+       ^ " req=" ^ (match w.requested with [] -> "-" | l -> String.concat "," (List.map hx l))
+       ^ " end=" ^ (match w.ended with Stopped -> "STOP" | Raised e -> exc_name e | CrashedW -> "PANIC" | OutOfFuel -> "CAP"))
+  | ["pyapi"; md; pol; ver; ab; mr; fuel; apis; script] ->
+    (* the Python layer (Model.PyLayer.run_api) on a script of socket results *)
+    let exc_of = function
+      | "SnmpError" -> ESnmpError | "SnmpDecodeError" -> EDecode | "SnmpEncodeError" -> EEncode | "SnmpAuthError" -> EAuth
+      | "NoSuchInstance" -> ENoSuchInstance | "ValueError" -> EValue | "TimeoutError" -> ETimeout | "BlockingIOError" -> EBlockingIO
+      | "OSError" -> EOSError | "NotImplementedError" -> ENotImplemented | "RuntimeError" -> ERuntime
+      | "StopAsyncIteration" -> EStopAsyncIteration | "StopIteration" -> EStopIteration | _ -> EException in
+    let tok_of t =
+      match t.[0] with
+      | 'r' -> TRet (SvObj (z_of_string (String.sub t 1 (String.length t - 1))))
+      | 'l' -> let body = String.sub t 1 (String.length t - 1) in
+        TRet (SvList (if body = "" then [] else List.map (fun x -> if x = "n" then None else Some (z_of_string x)) (String.split_on_char '.' body)))
+      | 'x' -> TRaise (exc_of (String.sub t 1 (String.length t - 1)))
+      | _ -> TTimeout in
+    let toks = if script = "-" then [] else List.map tok_of (String.split_on_char ',' script) in
+    let cfg = { pc_mode = (if md = "s" then Sync else Async); pc_policer = (pol = "1");
+                pc_version = (match ver with "v1" -> V1 | "v2c" -> V2c | _ -> V3); pc_allow_bulk = (ab = "1"); pc_max_rep = z_of_string mr } in
+    let api = (match String.split_on_char ':' apis with
+        | ["get"; o] -> ApiGet (bytes_of_hex o)
+        | ["getmany"; os] -> ApiGetMany (if os = "-" then [] else List.map bytes_of_hex (String.split_on_char ',' os))
+        | ["getnext"; o] -> ApiGetNext (bytes_of_hex o)
+        | ["getbulk"; o; r] -> ApiGetBulk (bytes_of_hex o, (if r = "-" then None else Some (z_of_string r)))
+        | ["fetch"; o] -> ApiFetch (bytes_of_hex o)
+        | _ -> failwith "bad api") in
+    let r = run_api cfg (nat_of_int (int_of_string fuel)) api toks in
+    let mname = function
+      | MGet -> "get" | MGetMany -> "get_many" | MGetNext -> "get_next" | MGetBulk -> "get_bulk"
+      | MSendGet -> "send_get" | MRecvGet -> "recv_get" | MSendGetMany -> "send_get_many" | MRecvGetMany -> "recv_get_many"
+      | MSendGetNext -> "send_get_next" | MRecvGetNext -> "recv_get_next" | MSendGetBulk -> "send_get_bulk" | MRecvGetBulk -> "recv_get_bulk" in
+    let aname = function ANone -> "-" | AOid t -> "o" ^ hx t | AOids ts -> "O" ^ String.concat "," (List.map hx ts) | ACtx -> "c" in
+    let ename' = function
+      | EvPolice -> "P" | EvSock (m, a) -> "S:" ^ mname m ^ ":" ^ aname a
+      | EvIter (o, m) -> "I:" ^ hx o ^ ":" ^ (match m with None -> "-" | Some z -> sz z) in
+    "EV " ^ (match r.r_events with [] -> "-" | l -> String.concat " " (List.map ename' l))
+    ^ " | ITEMS " ^ (match r.r_items with [] -> "-" | l -> String.concat "," (List.map sz l))
+    ^ " | END " ^ (match r.r_end with
+        | PRet (SvObj z) -> "ret:" ^ sz z
+        | PRet (SvList l) -> "retlist:" ^ String.concat "." (List.map (function None -> "n" | Some z -> sz z) l)
+        | PRaise e -> "exc:" ^ exc_name e | PCap -> "cap" | PBadScript -> "bad")
+    ^ " | REST " ^ string_of_int (List.length r.r_rest)
   | "recvloop" :: ver :: comm :: rid :: ds ->
     (* the community receive loop on the datagrams that arrive, in order *)
     let v = if ver = "1" then sNMP_V1 else sNMP_V2C in
